@@ -16,6 +16,8 @@ var universe18 = []string{
 	"d_old", "dd/x",
 	// printf-like characters
 	"p%sq/x",
+	// a path longer than 255 bytes
+	longPath,
 }
 
 // realizable: no member is a proper directory prefix of another.
